@@ -33,6 +33,14 @@ def main():
             checks = sys.argv[i + 1].split(",")
         if a == "--tier":
             tier = sys.argv[i + 1]
+    recheck = "--recheck" in sys.argv
+    extra = ""
+    for i, a in enumerate(sys.argv):
+        if a in ("--only", "--scale"):
+            extra += " %s %s" % (a, sys.argv[i + 1])
+    if recheck:
+        # the seed is already confirmed: only run checks against it (scratch worktree), append to meta["rechecks"]
+        return do_recheck(pid, k, checks, tier, extra)
     patch = os.path.join(sdir, "out", "patch%s.diff" % k)
     demo = os.path.join(sdir, "out", "demo%s.c" % k)
     readme = os.path.join(sdir, "out", "README%s.md" % k)
@@ -117,6 +125,38 @@ def main():
     finally:
         sh("git -C /repo worktree remove --force %s; rm -rf %s; git -C /repo worktree prune" % (wt, wt))
         sh("rm -rf %s/.build-alt" % V)
+
+
+def do_recheck(pid, k, checks, tier, extra):
+    name = "%s-%s" % (pid, k)
+    d = os.path.join(V, "seeded", name)
+    meta = json.load(open(os.path.join(d, "meta.json")))
+    wt = "/tmp/vs_%s" % name
+    sh("git -C /repo worktree remove --force %s; rm -rf %s" % (wt, wt))
+    rc, out = sh("git -C /repo worktree add -q %s HEAD" % wt)
+    assert rc == 0, out
+    res = {}
+    try:
+        rc, out = sh("git apply %s/patch.diff" % d, cwd=wt)
+        assert rc == 0, out
+        for c in checks:
+            t1 = time.time()
+            env = dict(os.environ, VERIF_REPO=wt, VERIF_SCRATCH_OUT="/tmp/vs_out_%s" % name)
+            cmd = "./check %s --tier %s%s" % (c, tier, extra)
+            rc, out = sh(cmd, cwd=V, env=env, timeout=7200)
+            viol = [l for l in out.splitlines() if l.startswith("VIOLATION")]
+            first = [l.strip()[:240] for l in out.splitlines() if l.startswith("  target=")][:3]
+            res[c] = dict(cmd="VERIF_REPO=<scratch worktree with the patch> " + cmd, exit=rc, violations=len(viol),
+                          first=first, wall_s=round(time.time() - t1), time=time.strftime("%Y-%m-%d %H:%M:%S"))
+            print(c, rc, len(viol), first[:1])
+            sh("rm -rf /tmp/vs_out_%s" % name)
+    finally:
+        sh("git -C /repo worktree remove --force %s; rm -rf %s; git -C /repo worktree prune" % (wt, wt))
+        sh("rm -rf %s/.build-alt" % V)
+    meta.setdefault("rechecks", []).append(res)
+    caught = set(meta.get("caught_by", [])) | {c for c, r in res.items() if r["exit"] == 1 and r["violations"] > 0}
+    meta["caught_by"] = sorted(caught)
+    json.dump(meta, open(os.path.join(d, "meta.json"), "w"), indent=1)
 
 
 def finish(meta, name, patch, demo, readme):
